@@ -8,7 +8,7 @@ TAG = {"cu": 0x11, "pu": 0x3c, "imp": 0x3d, "ns": 0x39, "var": 0x34, "sub": 0x2e
 ATN = {"name": 0x03, "line": 0x3b, "ext": 0x3f, "sibling": 0x01, "decl": 0x3c, "type": 0x49, "import": 0x18,
        "spec": 0x47, "orig": 0x31}
 FORMC = dwarfgen.FORM
-PIN = {"PinnedParent": False, "PinnedFind": False, "PinnedProducer": False, "PinnedPartialOnly": False, "PinnedNoCycleGuard": False}
+PIN = {"PinnedParent": False, "PinnedFind": False, "PinnedProducer": False, "PinnedPartialOnly": False, "PinnedNoCycleGuard": False, "PinnedCtx": False}
 
 
 def gen_forests(family, n, wd, shards=8, pinned=None):
